@@ -118,7 +118,8 @@ def check(run):
                 sites = [(kind, m) for T in M.templates for e in T['edges'] for kind, m in e['labels'] if kind in ('guard', 'update')]
                 if sites:
                     kind, m = rng.choice(sites)
-                    M.text[(kind, m)] = rng.choice(['zz%d == 1', 'g0 == c', 'x', 'g0 == 1 && !(g1 < 2) || g2 > 3', '!(g0 == %d) && (g1 > 0 || g2 < 5)']).replace('%d', str(m)) if kind == 'guard' else rng.choice(['g1 = zz%d', 'g1 = (g0 > 1 && g2 < 3) ? 1 : 0']).replace('%d', str(m))
+                    M.text[(kind, m)] = rng.choice(['zz%d == 1', 'g0 == c', 'x', 'g0 == 1 && !(g1 < 2) || g2 > 3', '!(g0 == %d) && (g1 > 0 || g2 < 5)', 'g0 == 1 || g1 < 2 && g2 > 3', 'g0 == %d || !(g1 < 2) && g2 > 3 || g1 == 0 && g0 > 1',
+                                                    'x < 5 || g0 == 1 && x < 3', '!(g0 == 1) || g1 < 2 && !(g2 > 3)', 'g0 == 1 && g1 < 2 || g2 > 3 && g0 < %d']).replace('%d', str(m)) if kind == 'guard' else rng.choice(['g1 = zz%d', 'g1 = (g0 > 1 && g2 < 3) ? 1 : 0']).replace('%d', str(m))
             base = docgen.render_xml(M)
         else:
             base = crashgen.wrap_xml(rng.choice(crashgen.DECL) + ' ' + rng.choice(crashgen.DECL), guard=rng.choice(crashgen.EXPR), assign=rng.choice(['g = 1', 'g = 1, b = false', 'g++']),
